@@ -251,7 +251,7 @@ func checkC03(c *Ctx) error {
 		run := pass1[bi].run
 		files := map[string]string{"stdout.txt": run.Res.Stdout, "batch.txt": fmt.Sprintf("%s asArgs=%v fnA=%v law=%v", b.id, b.asArgs, b.fnA, b.law)}
 		for _, br := range run.Contract() {
-			c.Violate("cli-contract:"+sigWords(br), br, files)
+			c.Side("C10,C12", "cli-contract:"+sigWords(br), br, files)
 		}
 		top := run.Rep.FailingTop()
 		if top != nil && top.Name != "Compile" {
@@ -336,11 +336,11 @@ func checkC03(c *Ctx) error {
 			continue
 		}
 		if !u.Compiled {
-			c.Violate("does-not-compile:"+errClass(u.CompileErr), fmt.Sprintf("unit %s: %s", u.ID, firstLines(u.CompileErr, 6)), files)
+			c.Side("C01", "does-not-compile:"+errClass(u.CompileErr), fmt.Sprintf("unit %s: %s", u.ID, firstLines(u.CompileErr, 6)), files)
 			continue
 		}
 		if len(u.Results) == 0 {
-			c.Violate("probe:"+sigWords(u.ProbeErr), fmt.Sprintf("unit %s: %s", u.ID, u.ProbeErr), files)
+			c.Side("C01", "probe:"+sigWords(u.ProbeErr), fmt.Sprintf("unit %s: %s", u.ID, u.ProbeErr), files)
 			continue
 		}
 		exp := RunModel(u.Cfg, u.Ops, nil)
